@@ -103,6 +103,10 @@ PROP = '''        if not self._frame.empty:
         return self._array
 '''
 EXTRA2 = [
+ ("static helper makes the zero array (empty / removal)", "same", [ed(CH, "    def frame_empty", "    @staticmethod\n    def _zeros_like(a):\n        return np.zeros_like(a)\n\n    def frame_empty"),
+     ed(CH, "            self._frame = self.EMPTY_FRAME.copy()\n        self._array = np.zeros_like(self._array)\n", "            self._frame = self.EMPTY_FRAME.copy()\n        self._array = Charge._zeros_like(self._array)\n")]),
+ ("BREAK static helper returns its argument (reset keeps the array)", "failclosed", [ed(CH, "    def frame_empty", "    @staticmethod\n    def _zeros_like(a):\n        return a\n\n    def frame_empty"),
+     ed(CH, "            self._frame = self.EMPTY_FRAME.copy()\n        self._array = np.zeros_like(self._array)\n", "            self._frame = self.EMPTY_FRAME.copy()\n        self._array = Charge._zeros_like(self._array)\n")]),
  ("array property: guard clause + named result", "same", [ed(CH, PROP, "        if self._frame.empty:\n            return self._array\n        rebuilt = self.convert_df_to_array()\n        self._array = rebuilt\n        return rebuilt\n")]),
  ("array property returns a copy", "differs-ok", [ed(CH, PROP, "        if self._frame.empty:\n            return self._array.copy()\n        rebuilt = self.convert_df_to_array()\n        self._array = rebuilt\n        return rebuilt.copy()\n")]),
  ("empty(): helper method resets the array", "same", [ed(CH, "        self._array = np.zeros_like(self._array)\n\n    def frame_empty", "        self._clear_array()\n\n    def _clear_array(self) -> None:\n        self._array = np.zeros_like(self._array)\n\n    def frame_empty")]),
